@@ -28,7 +28,7 @@ BOUND = {
     "thorough": "27 types x all 512 subsets x 8 values x 2 alias spellings x 3 contexts (order rotated)",
 }
 # as-built additions to the bound (kept next to BOUND so that the evidence reports them)
-BOUND = {k: v + "; plus: " + 'legacy loops over 1-3 choices: %(name)s / %(label)s placeholders in subsets <=3 (thorough <=4) of 7 logic cells, filled in per copy; selects inside a table-list group (row under test first / second; generated helper nodes carry no row logic); 11 columns (noAppErrorString and a constraint_message::fr language column added); 6 further range / image / geopoint parameter spellings' for k, v in BOUND.items()}
+BOUND = {k: v + "; plus: " + '14 legacy spellings of the metadata types with their preload pairs; legacy loops over 1-3 choices: %(name)s / %(label)s placeholders in subsets <=3 (thorough <=4) of 7 logic cells, filled in per copy; selects inside a table-list group (row under test first / second; generated helper nodes carry no row logic); 11 columns (noAppErrorString and a constraint_message::fr language column added); 6 further range / image / geopoint parameter spellings' for k, v in BOUND.items()}
 
 NSP = {"jr": O.JR, "odk": O.ODK, "orx": O.ORX}
 
@@ -137,8 +137,58 @@ def check_loop(case):
     return {"outcome": "ok", "nt": not viol, "viol": viol[:3], "tr": 5}
 
 
+# ---- legacy spellings of the metadata (preload) types: same preload pair as the modern name, plus the row's own logic cells
+LEGACY_PRELOAD = {
+    "start time": ("dateTime", "timestamp", "start"), "get start time": ("dateTime", "timestamp", "start"),
+    "end time": ("dateTime", "timestamp", "end"), "get end time": ("dateTime", "timestamp", "end"),
+    "get today": ("date", "date", "today"), "device id": ("string", "property", "deviceid"), "get device id": ("string", "property", "deviceid"),
+    "subscriber id": ("string", "property", "subscriberid"), "get subscriber id": ("string", "property", "subscriberid"),
+    "sim id": ("string", "property", "simserial"), "get sim id": ("string", "property", "simserial"),
+    "get phone number": ("string", "property", "phonenumber"),
+    "uri:deviceid": ("string", "property", "uri:deviceid"), "uri:username": ("string", "property", "uri:username"),
+}
+
+
+def gen_legacy(tier):
+    for ty in LEGACY_PRELOAD:
+        for rel in (False, True):
+            for ctx in ("top", "group", "repeat"):
+                yield {"legacy": ty, "rel": rel, "ty": 0, "ctx": ctx, "cols": [], "v": 0, "a": 0, "o": 0}
+
+
+def check_legacy(case):
+    ty = case["legacy"]
+    row = {"type": ty, "name": "t"}
+    if case["rel"]:
+        row["relevant"] = "${o} = 1"
+    rows = [{"type": "integer", "name": "o", "label": "O"}, row]
+    base = "/data"
+    if case["ctx"] != "top":
+        rows = [{"type": f"begin {case['ctx']}", "name": "w", "label": "W"}, *rows, {"type": f"end {case['ctx']}"}]
+        base = "/data/w"
+    out = run_convert({"survey": rows})
+    if out.kind != "ok":
+        return {"outcome": out.kind, "nt": False, "viol": [], "tr": 3, "unexp": out.kind == "reject", "why": (out.msg or "")[:200]}
+    obs = O.Obs(out.xform)
+    bs = obs.bind_map().get(f"{base}/t", [])
+    viol = []
+    bt, pre, par = LEGACY_PRELOAD[ty]
+    if len(bs) != 1:
+        viol.append(("bind-count:own", f"{len(bs)} binds for {base}/t ({ty})"))
+    else:
+        got = {O.local(k) if k.startswith("{") else k: v for k, v in bs[0].attrib.items() if k != "nodeset"}
+        want = {"type": bt, "preload": pre, "preloadParams": par}
+        if case["rel"]:
+            want["relevant"] = "../o = 1" if case["ctx"] == "repeat" else f"{base}/o = 1"
+        got = {k: norm_ws(v) for k, v in got.items()}
+        if got != want:
+            viol.append((f"legacy-preload-bind:{'+'.join(sorted(k for k in set(got) | set(want) if got.get(k) != want.get(k)))}", f"{ty}: got {got} want {want}"))
+    return {"outcome": "ok", "nt": not viol, "viol": viol, "tr": 3}
+
+
 def blocks(tier):
     yield ("loop",)
+    yield ("legacy",)
     for ti in range(len(TYPE_CELLS)):
         for ctx in ("top", "group", "repeat"):
             yield (ti, ctx)
@@ -152,6 +202,9 @@ def blocks(tier):
 def expand(block, tier):
     if block[0] == "loop":
         yield from gen_loop(tier)
+        return
+    if block[0] == "legacy":
+        yield from gen_legacy(tier)
         return
     ti, ctx = block
     kmax = 3 if tier == "quick" else len(KEYS)
@@ -270,6 +323,8 @@ def expected_bind(case, cells):
 def check_one(case):
     if case.get("loop"):
         return check_loop(case)
+    if case.get("legacy"):
+        return check_legacy(case)
     wb, cells = build(case)
     out = run_convert(wb)
     ntr = len(wb["survey"])
